@@ -92,6 +92,7 @@ pub fn map_expr(e: &E, f: &mut dyn FnMut(&E) -> Option<E>) -> E {
             let c2 = g(c);
             E::CallE(c2, v.iter().map(|x| *g(x)).collect(), *s)
         }
+        E::CallPack(n, fs, s) => E::CallPack(n.clone(), fs.iter().map(|(k, v)| (k.clone(), *g(v))).collect(), *s),
         E::If(c, t, el) => {
             let c2 = g(c);
             let t2 = g(t);
@@ -132,6 +133,8 @@ fn ren_expr(e: &E, old: &str, new: &str) -> E {
         match e {
             E::Var(n) => E::Var(ren(n, old, new)),
             E::Call(n, v, s) => E::Call(ren(n, old, new), v.iter().map(|x| go(x, old, new)).collect(), *s),
+            // parameter-pack field names are the callee's parameter names: renamed together with them
+            E::CallPack(n, fs, s) => E::CallPack(ren(n, old, new), fs.iter().map(|(k, v)| (ren(k, old, new), go(v, old, new))).collect(), *s),
             E::Lambda(ps, b) => E::Lambda(ps.iter().map(|p| ren(p, old, new)).collect(), Box::new(go(b, old, new))),
             E::Block(ss, r) => E::Block(
                 ss.iter()
@@ -218,7 +221,7 @@ fn kind(e: &E) -> &'static str {
         E::Neg(_) => "neg",
         E::Bin(..) => "binop",
         E::Math(..) => "builtin_call",
-        E::Call(..) | E::CallE(..) => "call",
+        E::Call(..) | E::CallE(..) | E::CallPack(..) => "call",
         E::If(..) => "if",
         E::Block(..) => "block",
         E::Lambda(..) => "lambda",
@@ -247,6 +250,7 @@ fn map_children(e: &E, f: &mut dyn FnMut(&E, &'static str) -> E) -> E {
             let c2 = f(c, "callee");
             E::CallE(Box::new(c2), v.iter().map(|x| f(x, "argument")).collect(), *s)
         }
+        E::CallPack(n, fs, s) => E::CallPack(n.clone(), fs.iter().map(|(k, v)| (k.clone(), f(v, "field_value"))).collect(), *s),
         E::If(c, t, el) => {
             let c2 = f(c, "condition");
             let t2 = f(t, "then_branch");
